@@ -428,7 +428,7 @@ def check(ctx, replay=None):
     if not getattr(ctx, "skip_proof", False):
         ctx.prove(["Extract_C14.vo"])
     hdbg = ctx.build_harness("c14_drv.cpp", tag="dbg", flags=["-DGUDHI_DEBUG"])
-    hrel = ctx.build_harness("c14_drv.cpp", tag="rel", flags=[])
+    hrel = ctx.build_harness("c14_drv.cpp", tag="rel", flags=["-DGUDHI_USE_TBB"])   # release variant also takes the tbb::parallel_sort path
     orc = ctx.build_oracle("c14")
 
     def report(inp, kind_what, build, shrink=True):
